@@ -86,6 +86,8 @@ def write_errors_to_yaml(container, yaml_doc):
                 raise TypeError("Unknown error matrix type '{}'. " "Valid: 'correlation' or 'covariance'.")
         else:
             raise TypeError("No representation for error type {} " "implemented!".format(type(_err_obj)))
+        if not _err_dict.get("enabled", True):
+            _yaml_section[-1]["enabled"] = False
 
     return yaml_doc
 
@@ -173,7 +175,11 @@ def process_error_sources(container_obj, yaml_doc):
             raise ValueError("Missing required key '%s' for error specification" % e.args[0])
 
         # add error to data container
+        _names_before = set(container_obj._error_dicts.keys())
         container_obj = add_error_to_container(_err_type, container_obj, **_add_kwargs)
+        if not _err.get("enabled", True):
+            for _new_name in set(container_obj._error_dicts.keys()) - _names_before:
+                container_obj.disable_error(_new_name)
 
     return container_obj, yaml_doc
 
